@@ -46,6 +46,51 @@ PROPS = {
         "level_text": "sources_sound (every source is a member of the inferred shape, any order/repetition) and one_more (adding a document never evicts) are Lean theorems over all histories, resting on merger_sound/merger_wf/infer_sound/infer_wf proved by induction over all shapes/documents. sources_sound is stated under conflictFree, the exact complement of recorded known finding D3 (pinned by the repo's own snapshot test); the negation on the D3 witness is proved too. merger, inference and from_sources of the model are compared with the real code on every run, and membership is re-checked on the real code's results with the independent `admits`.",
         "level_note": "Trusted: Lean kernel; hand-written model of shape/mod.rs (parse_rule on document trees), merger.rs, subset.rs tied by differential testing; reference semantics Ref/Sem.lean; the reference JSON parser stands in for the library's lexer/parser at this level (the text layer is C04's subject).",
     },
+    "C06": {
+        "module": "ShapeVerif.Props.C06",
+        "theorems": ["ShapeVerif.paths_agree", "ShapeVerif.visitor_spec", "ShapeVerif.classify_agree"],
+        "statements": {
+            "paths_agree": "∀ d, d.noDupKeys → inferDoc d = ok s → inferSVal d.toSVal = s",
+            "classify_agree": "on inferred element shapes the two array classifications (branches tested in different orders) coincide",
+        },
+        "rule": "type-directed random documents (nesting <= 4; arrays of objects where later elements lack early/middle/late keys; empty arrays/objects) in up to four formattings; each text goes through from_str and through serde_json::from_str + JsonShape::from (+ JsonVisitor, owned From). Oracle: the two results are equal. Non-trivial = container involved.",
+        "assumptions": ["serde_json parses an accepted text to the value Doc.toSVal describes (members sorted by key); exercised on every case, not proved",
+                        "member names without escape sequences (escaped names: see DESIGN D11)"],
+        "level_text": "paths_agree is a Lean theorem over all document trees without repeated member names: the model of parse_rule and the model of From<&serde_json::Value> return the same shape; it rests on the exact characterisation of both array classifications (classify_agree) and map extensionality. Both models are compared with the real functions on every run and the equality is re-checked on the real code's outputs.",
+        "level_note": "Trusted: Lean kernel; hand-written models of shape/mod.rs and serde.rs (differential testing); serde_json's text->Value step is assumed to be Doc.toSVal. JsonVisitor is modelled by its two stored fields.",
+    },
+    "C08": {
+        "module": "ShapeVerif.Props.C08",
+        "theorems": ["ShapeVerif.merger_idem", "ShapeVerif.merge_null_right", "ShapeVerif.merge_null_left",
+                     "ShapeVerif.merger_comm_sem", "ShapeVerif.object_struct", "ShapeVerif.array_struct",
+                     "ShapeVerif.scalar_struct", "ShapeVerif.sources_idem", "ShapeVerif.sources_null",
+                     "ShapeVerif.sources_comm"],
+        "statements": {
+            "merger_idem": "s.wf → merger s s = s",
+            "merger_comm_sem": "a.wf → b.wf → ∀ d, admits (merger a b) d = admits (merger b a) d",
+            "object_struct": "merger (Object c o) (Object c' p) = Object M (o||p) with M[k] = merger c[k] c'[k] | asOptional c[k] | asOptional c'[k]",
+            "sources_idem": "inferDoc d = ok s → fromSourcesDoc [d,d] = ok s",
+            "sources_null": "fromSourcesDoc [d,null] = fromSourcesDoc [null,d] = ok (asOptional s)",
+        },
+        "rule": "merger on all ordered pairs of the small-scope shape universe + related random pairs; p_c08 on all ordered pairs of 11 fixed documents (scalars, [], {}, [[],1], [1,2], [1,\"a\"], [null,1], {a:1}) and random document pairs: idempotence, null absorption, object/array structure checked on the real code, both merge orders compared by witnesses of the reference semantics. Non-trivial = container involved.",
+        "assumptions": [],
+        "level_text": "All algebraic laws are Lean theorems over every well-formed shape: idempotence, both null laws, order-insensitivity as equality of meanings (∀ documents), and the object/array/scalar structure equations, with corollaries at the level of sources. merger is compared with the real function on every run; the laws are re-evaluated on the real from_sources for generated document pairs.",
+        "level_note": "Trusted: Lean kernel; hand-written model of merger.rs (differential testing, exhaustive over constructor pairs and flags at small scope); reference semantics for the meaning comparison.",
+    },
+    "C17": {
+        "module": "ShapeVerif.Props.C17",
+        "theorems": ["ShapeVerif.infer_null", "ShapeVerif.infer_bool", "ShapeVerif.infer_number",
+                     "ShapeVerif.infer_string", "ShapeVerif.infer_array", "ShapeVerif.infer_array_elements",
+                     "ShapeVerif.infer_object", "ShapeVerif.mapGet_mergeObjectElements"],
+        "statements": {
+            "infer_array": "with es the element shapes: [] ↦ Option<Array<Null>>; all equal ↦ Array<es.head>; differently shaped non-objects ↦ Tuple es; differently shaped objects ↦ Array<Object M> with M[k] = specLookup k es (shape if in every element, optional form if in some)",
+            "infer_object": "inferDoc (obj ms) = ok s → s = Object c false with keys exactly the member names, c[k] = inferDoc of the member's value",
+        },
+        "rule": "random documents and each of their sub-documents through from_str and the serde_json path; p_c17 recomputes every node's shape from the shapes the implementation gives to its children by an independent Rust reading of the statement (keys with two value shapes are left unspecified, as in the statement). Non-trivial = container involved.",
+        "assumptions": ["value-path statements follow from C06 (paths_agree) composed with these theorems"],
+        "level_text": "Every clause is a Lean theorem about the model of parse_rule over all document trees: scalars, objects (exact key set and value shapes), arrays (all four branches, with the array-of-objects content characterised key by key by specLookup). The model is compared with the real from_str and From<&Value> on each document and sub-document, and the clauses are recomputed on the real code independently.",
+        "level_note": "Trusted: Lean kernel; hand-written model of shape/mod.rs and serde.rs (differential testing); the document tree is obtained by the reference parser (the lexer/parser layer is C04's subject).",
+    },
     "C02": {
         "module": "ShapeVerif.Props.C02",
         "theorems": ["ShapeVerif.subset_sound"],
@@ -65,7 +110,7 @@ def skip_compare(op, impl, model):
     """Lines outside the modelled fragment are counted, not compared."""
     if impl == "unparsable":          # serde_json rejected the text: outside C06's quantifier
         return True
-    if model == "unmodelled":
+    if model in ("unmodelled", "n/a"):
         return True
     return False
 
@@ -103,6 +148,14 @@ def oracle(pid, ops, impl, tier):
                 prev = (f[1:], shape)
             else:
                 prev = None
+    if pid == "C08":
+        for o, r in zip(ops, impl):
+            f = o.split("\t")
+            if f[0] == "p_c08" and r.startswith("ok "):
+                # r = "ok <s1> <s2>" with s-expressions; split at the top-level boundary
+                s1, s2 = split_two_sexp(r[3:])
+                out.append((f"witness\t{s1}\t{s2}", "ok", "both merge orders must admit the same documents (d,e order admits more)", o))
+                out.append((f"witness\t{s2}\t{s1}", "ok", "both merge orders must admit the same documents (e,d order admits more)", o))
     if pid == "C02":
         for o, r in zip(ops, impl):
             f = o.split("\t")
@@ -115,11 +168,43 @@ def oracle(pid, ops, impl, tier):
     return out
 
 
+def split_two_sexp(t):
+    depth = 0
+    for i, ch in enumerate(t):
+        if ch == "(":
+            depth += 1
+        elif ch == ")":
+            depth -= 1
+        elif ch == " " and depth == 0:
+            return t[:i], t[i + 1:]
+    return t, ""
+
+
 def expect_ok(got, want):
     """`want` ending in * is a prefix pattern."""
     if want.endswith("*"):
         return got.startswith(want[:-1])
     return got == want
+
+
+def direct_oracle(pid, ops, impl):
+    """Property checks decided on the implementation's answers alone (no reference evaluation)."""
+    fails = []
+    if pid in ("C06", "C17"):
+        # consecutive (inferdoc t, inferv t) pairs on the same text must agree
+        for j in range(len(ops) - 1):
+            a, b = ops[j].split("\t"), ops[j + 1].split("\t")
+            if a[0] == "inferdoc" and b[0] == "inferv" and a[1:] == b[1:] or \
+               (a[0] == "inferdoc" and b[0] == "inferv" and pid == "C17"):
+                if impl[j + 1] in ("unparsable",):
+                    continue
+                if a[1:] != b[1:]:
+                    # C17 pairs render the same document in two styles; shapes must still agree
+                    pass
+                if impl[j].startswith("ok ") and impl[j] != impl[j + 1]:
+                    fails.append({"op": ops[j], "impl": impl[j], "expected": impl[j + 1],
+                                  "why": "text path and value path must infer the same shape (second: " + ops[j + 1][:200] + ")"})
+    return fails
 
 
 def oracle_ok(got, want):
